@@ -973,3 +973,37 @@ package tally
 //@   ensures @new_scope_prefix_is_the_qualified_sanitized_name created != nil ==> created == dyn(result, *scope) && created.prefix == fqn(s, sanN(s, prefix)) && created.separator == s.separator
 //@   ensures @new_scope_keeps_the_tags created != nil ==> created.tags == s.tags
 //@   ensures @inert_when_closed old(s.closed) || old(s.registry.root.closed) ==> dyn(result, *scope) == dyn(NoopScope, *scope)
+
+// ---------------------------------------------------------------------------
+// Constructors (C04, C06)
+
+//@ axiom sanitize_name_idempotent: forall t, p int, x string :: pcall(Sanitizer.Name, iface2(t, p), pcall(Sanitizer.Name, iface2(t, p), x)) == pcall(Sanitizer.Name, iface2(t, p), x)
+//@ axiom sanitize_key_idempotent: forall t, p int, x string :: pcall(Sanitizer.Key, iface2(t, p), pcall(Sanitizer.Key, iface2(t, p), x)) == pcall(Sanitizer.Key, iface2(t, p), x)
+//@ axiom sanitize_value_idempotent: forall t, p int, x string :: pcall(Sanitizer.Value, iface2(t, p), pcall(Sanitizer.Value, iface2(t, p), x)) == pcall(Sanitizer.Value, iface2(t, p), x)
+
+//@ pred cleanName(s *scope, x string) { pcall(Sanitizer.Name, s.sanitizer, x) == x }
+//@ pred cleanKey(s *scope, x string) { pcall(Sanitizer.Key, s.sanitizer, x) == x }
+//@ pred cleanValue(s *scope, x string) { pcall(Sanitizer.Value, s.sanitizer, x) == x }
+
+//@ func newScopeRegistryWithShardCount
+//@   property C06, C04, C05
+//@   emits
+//@   allocs
+//@   requires root != nil && root.sanitizer != nil
+//@   ensures @fresh result != nil && fresh(result) && result.root == root && len(result.subscopes) >= 1 && (shardCount != 0 ==> len(result.subscopes) == shardCount)
+//@   ensures @buckets forall i int :: 0 <= i && i < len(result.subscopes) ==> result.subscopes[i] != nil && fresh(result.subscopes[i]) && result.subscopes[i].s != nil
+//@   ensures @root_registered_in_every_shard forall i int :: 0 <= i && i < len(result.subscopes) ==> kspec1(root.prefix, root.tags) in result.subscopes[i].s && result.subscopes[i].s[kspec1(root.prefix, root.tags)] == root
+//@   ensures @only_the_root_registered forall i int, k string :: 0 <= i && i < len(result.subscopes) && k in result.subscopes[i].s ==> k == kspec1(root.prefix, root.tags)
+//@   ensures @cardinality_names_sanitized result.sanitizedCounterCardinalityName == pcall(Sanitizer.Name, root.sanitizer, "tally.internal.counter_cardinality") && result.sanitizedGaugeCardinalityName == pcall(Sanitizer.Name, root.sanitizer, "tally.internal.gauge_cardinality") && result.sanitizedHistogramCardinalityName == pcall(Sanitizer.Name, root.sanitizer, "tally.internal.histogram_cardinality") && result.sanitizedScopeCardinalityName == pcall(Sanitizer.Name, root.sanitizer, "tally.internal.num_active_scopes")
+//@   ensures @cardinality_tags_sanitized result.cardinalityMetricsTags != nil && (forall k string :: k in result.cardinalityMetricsTags ==> cleanKey(root, k) && cleanValue(root, result.cardinalityMetricsTags[k]))
+//@   ensures @no_cached_reporter_no_allocation root.cachedReporter == nil || omitCardinalityMetrics ==> quiet()
+//@   ensures @caller_tags_untouched forall k string :: (k in cardinalityMetricsTags) == old(k in cardinalityMetricsTags)
+//@   loop 1 invariant @registry r != nil && fresh(r) && r.root == root && r.cardinalityMetricsTags != nil && fresh(r.cardinalityMetricsTags) && r.cardinalityMetricsTags != cardinalityMetricsTags && quiet() && shardCount >= 1 && len(r.subscopes) == shardCount && fresh(r.subscopes) && r.subscopes.off == 0
+//@   loop 1 invariant @tags_sanitized forall k string :: k in r.cardinalityMetricsTags ==> cleanKey(root, k) && cleanValue(root, r.cardinalityMetricsTags[k])
+//@   loop 1 invariant @names r.sanitizedCounterCardinalityName == pcall(Sanitizer.Name, root.sanitizer, "tally.internal.counter_cardinality") && r.sanitizedGaugeCardinalityName == pcall(Sanitizer.Name, root.sanitizer, "tally.internal.gauge_cardinality") && r.sanitizedHistogramCardinalityName == pcall(Sanitizer.Name, root.sanitizer, "tally.internal.histogram_cardinality") && r.sanitizedScopeCardinalityName == pcall(Sanitizer.Name, root.sanitizer, "tally.internal.num_active_scopes")
+//@   loop 1 invariant @caller_tags_untouched forall k string :: (k in cardinalityMetricsTags) == old(k in cardinalityMetricsTags)
+//@   loop 2 invariant @registry r != nil && fresh(r) && r.root == root && r.cardinalityMetricsTags != nil && quiet() && shardCount >= 1 && len(r.subscopes) == shardCount && fresh(r.subscopes) && r.subscopes.off == 0 && 0 <= i && i <= shardCount
+//@   loop 2 invariant @tags_sanitized forall k string :: k in r.cardinalityMetricsTags ==> cleanKey(root, k) && cleanValue(root, r.cardinalityMetricsTags[k])
+//@   loop 2 invariant @names r.sanitizedCounterCardinalityName == pcall(Sanitizer.Name, root.sanitizer, "tally.internal.counter_cardinality") && r.sanitizedGaugeCardinalityName == pcall(Sanitizer.Name, root.sanitizer, "tally.internal.gauge_cardinality") && r.sanitizedHistogramCardinalityName == pcall(Sanitizer.Name, root.sanitizer, "tally.internal.histogram_cardinality") && r.sanitizedScopeCardinalityName == pcall(Sanitizer.Name, root.sanitizer, "tally.internal.num_active_scopes")
+//@   loop 2 invariant @buckets forall j int :: 0 <= j && j < i ==> r.subscopes[j] != nil && fresh(r.subscopes[j]) && r.subscopes[j].s != nil && kspec1(root.prefix, root.tags) in r.subscopes[j].s && r.subscopes[j].s[kspec1(root.prefix, root.tags)] == root && (forall k string :: k in r.subscopes[j].s ==> k == kspec1(root.prefix, root.tags))
+//@   loop 2 invariant @caller_tags_untouched forall k string :: (k in cardinalityMetricsTags) == old(k in cardinalityMetricsTags)
